@@ -214,8 +214,71 @@ def sweep(only=None):
         print("%-10s %s" % r)
 
 
+def sweep2(only=None):
+    """like sweep, but cheaper: every change is first judged in memory by all 19 rule sets (tools_try.py against a pristine snapshot, in
+    parallel); then it is applied to /repo and the registered quick checks of its own property and of every property that spoke up in
+    memory are run on disk.  A change that no longer applies to HEAD is judged in memory on the files of its own base commit."""
+    import re
+    from concurrent.futures import ThreadPoolExecutor
+
+    snap = os.environ.get("TRY_REPO", "/tmp/repo_clean")
+    sids = [sid for sid in sorted(os.listdir("/verif/seeded")) if os.path.exists(f"/verif/seeded/{sid}/patch.diff") and (not only or sid in only)]
+
+    def mem(sid):
+        rc, out = sh(f"TRY_REPO={snap} /venv/bin/python tools_try.py seeded/{sid}/patch.diff", "/verif", timeout=1800)
+        return sid, out
+
+    with ThreadPoolExecutor(max_workers=10) as ex:
+        outs = dict(ex.map(mem, sids))
+    rows = []
+    for sid in sids:
+        d = f"/verif/seeded/{sid}"
+        meta = json.load(open(f"{d}/meta.json"))
+        if "caught_by_initial" not in meta:
+            meta["caught_by_initial"] = meta.get("caught_by", {})
+        spoke = {}
+        cur = None
+        for l in outs[sid].splitlines():
+            mm = re.match(r"^(C\d\d) (FAIL|REFUSED)", l)
+            if mm:
+                cur = mm.group(1)
+                spoke[cur] = dict(exit=1 if mm.group(2) == "FAIL" else 2, lines=[])
+            elif cur and l.startswith("   "):
+                spoke[cur]["lines"].append(l.strip()[:260])
+        props = sorted(set(spoke) | {meta["property"]})
+        rc, st = sh("git status --porcelain", "/repo")
+        assert not st.strip(), "/repo not clean"
+        rc, ap = sh(f"git apply {d}/patch.diff", "/repo")
+        caught = {}
+        if rc:
+            caught = {f"{p_}/quick": dict(v, how="in memory, on the files of the change's own base commit (it no longer applies to HEAD)") for p_, v in spoke.items()}
+        else:
+            try:
+                for p_ in props:
+                    rc2, out = sh(f"/venv/bin/python sa/check.py {p_} --tier quick --quiet", ENGINE)
+                    v = [l for l in out.splitlines() if l.startswith("VIOLATION") or "violated:" in l or l.startswith("ANALYSIS-ERROR")]
+                    if rc2 != 0:
+                        caught[f"{p_}/quick"] = dict(exit=rc2, lines=[l.strip()[:260] for l in v][:6])
+            finally:
+                sh("git checkout -- .", "/repo")
+                sh("git checkout -- evidence", ENGINE)
+        meta["caught_by"] = caught
+        meta["swept_with"] = sh("git rev-parse --short HEAD", "/verif")[1].strip() + " (+ working tree)"
+        json.dump(meta, open(f"{d}/meta.json", "w"), indent=1)
+        own = [k for k in caught if caught[k]["exit"] == 1]
+        ref = [k for k in caught if caught[k]["exit"] == 2]
+        rows.append((sid, "CAUGHT " + ",".join(own) if own else ("REFUSED " + ",".join(ref) if ref else "MISSED")))
+    for r in rows:
+        print("%-10s %s" % r)
+    from collections import Counter
+    print(Counter(r[1].split()[0] for r in rows))
+
+
 if __name__ == "__main__":
     cmd = sys.argv[1]
+    if cmd == "sweep2":
+        sweep2(set(sys.argv[2:]) or None)
+        sys.exit(0)
     if cmd == "refactor":
         refactor(sys.argv[2], sys.argv[3], sys.argv[4])
         sys.exit(0)
